@@ -1338,10 +1338,11 @@ class ContactHandler(Messenger, dbus.service.Object):
             self._segment_last_ack_len = length
 
             rx_time = datetime.datetime.now(datetime.timezone.utc)
-            tx_time = self._segment_tx_times.pop(length)
-            delta_t = (rx_time - tx_time).total_seconds()
-
-            self._modulate_tx_seg_size(delta_b, delta_t)
+            tx_time = self._segment_tx_times.pop((transfer_id, length), None)
+            if tx_time is not None:
+                delta_t = (rx_time - tx_time).total_seconds()
+                if delta_t > 0:
+                    self._modulate_tx_seg_size(delta_b, delta_t)
 
         if transfer_id not in self._tx_map:
             raise RejectError(messages.RejectMsg.Reason.UNEXPECTED)
@@ -1584,7 +1585,7 @@ class ContactHandler(Messenger, dbus.service.Object):
         # Actual segment
         self.send_xfer_data(self._tx_tmp.transfer_id, data, flg, ext_items)
         # Mark the transmit time
-        self._segment_tx_times[self._tx_length] = datetime.datetime.now(datetime.timezone.utc)
+        self._segment_tx_times[(self._tx_tmp.transfer_id, self._tx_length)] = datetime.datetime.now(datetime.timezone.utc)
 
         if flg & messages.TransferSegment.Flag.END:
             if not self._do_send_ack_final:
